@@ -132,7 +132,7 @@ def params_of(opts, gfsep):
     p = {o: True for o in opts}
     if gfsep != '-':
         # the value as the command line hands it over (`gf_separator:0` arrives as the integer 0)
-        p['gf_separator'] = treeio.repo_modules()['misc'].options_dict(['gf_separator:%s' % gfsep])['gf_separator']
+        p['gf_separator'] = treeio.repo_modules()['misc'].options_dict(['gf_separator:%s' % ('' if gfsep == '~' else gfsep)])['gf_separator']
     return p
 
 
